@@ -139,8 +139,8 @@ int run_phantom(const Args& a) {
         ses.reenter();
         Model model;
         TreeGen tg(r, kg, a.num("maxkeys", 200), 24);
-        static const int fam_cycle[] = {3, 2, 0, 1, 3, 4, 5, 2, 6};
-        int family = fam_cycle[t % 9];
+        static const int fam_cycle[] = {3, 2, 0, 1, 3, 4, 5, 2, 6, 7};
+        int family = fam_cycle[t % 10];
         tg.build(ses.tok, storage, model, family);
         rep.count("trees");
         std::vector<std::string> keys;
@@ -255,9 +255,29 @@ int run_phantom(const Args& a) {
                     continue;
                 }
                 wses.reenter();
+                // optionally remove keys between the read and the insert: removes never change a node version by
+                // design, so the guarantee must survive them (e.g. the emptied and revived root border)
+                std::vector<std::pair<std::string, std::string>> taken;
+                unsigned rm_mode = static_cast<unsigned>(r.below(6)); // 0: remove everything, 1: remove the produced keys, 2: some
+                if (rm_mode <= 2 && !model.empty()) {
+                    for (auto& kv : model) {
+                        bool victim = rm_mode == 0 || (rm_mode == 1 && std::find(rr.keys.begin(), rr.keys.end(), kv.first) != rr.keys.end()) || (rm_mode == 2 && r.chance(1, 3));
+                        if (victim && yk::remove(wses.tok, storage, kv.first) == status::OK) { taken.emplace_back(kv.first, kv.second); }
+                    }
+                    rep.count("inserts_preceded_by_removes");
+                    if (rm_mode == 0) { rep.count("inserts_into_emptied_tree"); }
+                }
                 status ps = yput(wses.tok, storage, ck, "phantom-value");
                 wses.leave();
-                if (ps != status::OK) { continue; }
+                auto restore = [&]() {
+                    wses.reenter();
+                    for (auto& [k, v] : taken) { yput(wses.tok, storage, k, v); }
+                    wses.leave();
+                };
+                if (ps != status::OK) {
+                    restore();
+                    continue;
+                }
                 bool stale = false;
                 for (auto& [body, ptr] : rr.nv) {
                     if (ptr->get_stable_version() != body) { stale = true; }
@@ -269,7 +289,7 @@ int run_phantom(const Args& a) {
                 if (!stale) {
                     JObj d = s.json();
                     d.str("inserted_key", hex(ck)).str("candidate_class", cls).num("set_size", rr.nv.size()).num("produced", rr.keys.size()).boolean("complete", rr.complete);
-                    d.num("tree", t).str("family", TreeGen::family_name(family)).num("keys", model.size());
+                    d.num("tree", t).str("family", TreeGen::family_name(family)).num("keys", model.size()).num("keys_removed_between_read_and_insert", taken.size());
                     if (!rr.keys.empty()) { d.str("last_produced", hex(rr.keys.back())); }
                     if (model.size() <= 6) {
                         std::vector<std::string> mk;
@@ -285,6 +305,7 @@ int run_phantom(const Args& a) {
                 wses.reenter();
                 yk::remove(wses.tok, storage, ck);
                 wses.leave();
+                restore();
             }
         }
         ses.leave();
